@@ -140,7 +140,139 @@ pub async fn run_case(role: Role, seed: u64) -> Outc {
     o
 }
 
+/// Part C: acknowledgements produced by the handlers of a MQTT 5 server, with diagnostics
+/// (reason string, user properties) attached, under the peer's Maximum Packet Size and its
+/// Request Problem Information flag — judged on the wire.
+pub async fn ack_case(seed: u64) -> (Vec<(String, String)>, usize, usize, usize, u64) {
+    use crate::refcodec::{Packet as R, Prop, Ver};
+    let mut rng = Rng::for_case(seed, "c09c", 0);
+    let app = App::new("c09c");
+    let mut cfg = ConnCfg::new(Role::V5Server);
+    cfg.max_qos = 2;
+    cfg.request_problem_info = rng.chance(2, 3);
+    let limit: Option<u32> = match rng.below(4) {
+        0 => None,
+        1 => Some(20 + rng.below(30) as u32),
+        2 => Some(40 + rng.below(120) as u32),
+        _ => Some(300),
+    };
+    cfg.peer_max_packet_size = limit;
+    // CONNACK answers that go through the codec's flag setters after the CONNECT was decoded
+    cfg.hs.retain_available = *rng.pick(&[None, Some(true), Some(false)]);
+    cfg.hs.sub_ids_available = *rng.pick(&[None, Some(true), Some(false)]);
+    let n_up = rng.usize(4);
+    let ups: Vec<(String, String)> = (0..n_up).map(|i| (format!("k{i}"), "v".repeat(*rng.pick(&[0usize, 1, 10, 40, 150])))).collect();
+    let reason = rng.chance(2, 3).then(|| "R".repeat(*rng.pick(&[1usize, 8, 30, 100])));
+    *app.ack_decor.borrow_mut() = Some((reason.clone(), ups.clone()));
+    let mut c = conn::start(&cfg, app.clone()).await;
+    let mut vio: Vec<(String, String)> = Vec::new();
+    if !c.has_sink() {
+        return (vio, 0, 0, 0, 0);
+    }
+    let what = format!("problem info requested: {}, peer Maximum Packet Size {limit:?}, reason string {:?} bytes, user properties {:?}", cfg.request_problem_info, reason.as_ref().map(String::len), ups.iter().map(|(k, v)| k.len() + v.len()).collect::<Vec<_>>());
+    let mut pid = 10u16;
+    let n = 2 + rng.usize(5);
+    for _ in 0..n {
+        pid += 1;
+        match rng.below(4) {
+            0 => {
+                c.peer.send(&R::Publish { dup: false, qos: 1, retain: false, topic: "a".into(), pid: Some(pid), props: vec![], payload: vec![1] });
+            }
+            1 => {
+                c.peer.send(&R::Publish { dup: false, qos: 2, retain: false, topic: "a".into(), pid: Some(pid), props: vec![], payload: vec![2] });
+                c.settle().await;
+                c.peer.send(&R::PubRel { pid, code: Some(0), props: None });
+            }
+            2 => {
+                c.peer.send(&R::Subscribe { pid, props: vec![], filters: vec![("f/#".into(), 1)] });
+            }
+            _ => {
+                c.peer.send(&R::Unsubscribe { pid, props: vec![], filters: vec!["f/#".into()] });
+            }
+        }
+        c.settle().await;
+    }
+    // ---- judge every acknowledgement on the wire
+    let decor_props = |with_reason: bool| -> Vec<Prop> {
+        let mut v: Vec<Prop> = ups.iter().map(|(k, v)| Prop::Pair(0x26, k.clone(), v.clone())).collect();
+        if with_reason {
+            if let Some(r) = &reason {
+                v.push(Prop::Str(0x1F, r.clone()));
+            }
+        }
+        v
+    };
+    let (mut acks, mut shortened, mut complete) = (0usize, 0usize, 0usize);
+    for (_, p) in app.wire() {
+        let (props, full): (Vec<Prop>, R) = match &p {
+            R::PubAck { pid, code, props } => (props.clone().unwrap_or_default(), R::PubAck { pid: *pid, code: Some(code.unwrap_or(0)), props: Some(decor_props(true)) }),
+            R::PubRec { pid, code, props } => (props.clone().unwrap_or_default(), R::PubRec { pid: *pid, code: Some(code.unwrap_or(0)), props: Some(decor_props(true)) }),
+            R::PubComp { pid, code, props } => (props.clone().unwrap_or_default(), R::PubComp { pid: *pid, code: Some(code.unwrap_or(0)), props: Some(decor_props(true)) }),
+            R::SubAck { pid, props, codes } => (props.clone(), R::SubAck { pid: *pid, props: decor_props(true), codes: codes.clone() }),
+            R::UnsubAck { pid, props, codes } => (props.clone(), R::UnsubAck { pid: *pid, props: decor_props(true), codes: codes.clone() }),
+            _ => continue,
+        };
+        acks += 1;
+        let name = p.name();
+        let on_wire = refcodec::encode(Ver::V5, &p).map(|b| b.len()).unwrap_or(0);
+        if let Some(l) = limit {
+            if on_wire as u32 > l {
+                vio.push((format!("{name} larger than the peer's Maximum Packet Size"), format!("{on_wire} bytes — {what}")));
+            }
+        }
+        let diag: Vec<&Prop> = props.iter().filter(|q| matches!(q, Prop::Str(0x1F, _) | Prop::Pair(0x26, _, _))).collect();
+        if !cfg.request_problem_info && !diag.is_empty() {
+            vio.push((format!("{name} carries a reason string / user properties although the CONNECT declined problem information"), format!("{diag:?} — {what}").chars().take(300).collect()));
+        }
+        // whole properties only: everything present is one of the attached diagnostics
+        let all = decor_props(true);
+        for q in &diag {
+            if !all.contains(q) {
+                vio.push((format!("{name} carries a diagnostic property that differs from what the handler attached (truncated?)"), format!("{q:?} — {what}").chars().take(300).collect()));
+            }
+        }
+        // (when diagnostics are dropped is the library's choice — it budgets the fixed header
+        // conservatively; the statement only says what may be left out and that the limit holds)
+        let full_len = refcodec::encode(Ver::V5, &full).map(|b| b.len()).unwrap_or(usize::MAX);
+        if diag.len() == all.len() {
+            complete += 1;
+        } else if limit.is_some_and(|l| full_len as u32 > l) {
+            shortened += 1;
+        }
+    }
+    if let Some(g) = &c.peer.garbage {
+        vio.push(("acknowledgement stream does not parse".into(), format!("{g} — {what}")));
+    }
+    let sig = app.trace_signature() ^ seed;
+    c.finish().await;
+    (vio, acks, shortened, complete, sig)
+}
+
 pub fn run_part(opts: &Opts, rep: &Report) {
+    let n: u64 = if opts.tier == Tier::Quick { 6000 } else { 200_000 };
+    pool::par_for(n, None, |i| {
+        let seed = pool::mix(opts.seed ^ 0xC09C, i);
+        let r = exec(ack_case(seed));
+        rep.eval();
+        match &r {
+            Run::Done((v, acks, shortened, complete, sig), _) => {
+                rep.distinct(*sig);
+                rep.count("conn_acks_judged_on_the_wire", *acks as u64);
+                rep.count("conn_acks_that_had_to_be_shortened", *shortened as u64);
+                rep.count("conn_acks_that_fit_completely", *complete as u64);
+                for (class, what) in v {
+                    rep.violation(Violation { signature: format!("conn/v5/server/acks: {}", pool::abstract_numbers(class)), what: format!("{class} — {what}"), replay: json!({"kind": "conn-acks", "seed": seed}) });
+                }
+            }
+            Run::Panic(p, _) => rep.violation(Violation { signature: format!("conn/v5/server/acks: {}", p.signature()), what: format!("panic: {} at {}", p.msg, p.location), replay: json!({"kind": "conn-acks", "seed": seed}) }),
+            Run::Livelock(_) => rep.violation(Violation { signature: "conn/v5/server/acks: live-lock".into(), what: "never quiescent".into(), replay: json!({"kind": "conn-acks", "seed": seed}) }),
+            Run::Watchdog => rep.inconclusive("watchdog"),
+        }
+        r.after()
+    });
+    rep.require("conn_acks_judged_on_the_wire", 10_000);
+    rep.require("conn_acks_that_had_to_be_shortened", 500);
+
     let n: u64 = if opts.tier == Tier::Quick { 4000 } else { 60_000 };
     pool::par_for(n, None, |i| {
         let role = Role::ALL[(i % 4) as usize];
